@@ -169,6 +169,15 @@ def make_env(ns, uni, params, memo, defs, result_holder):
                 seen[id(t)] = d
                 return d
             return depth(obj, frozenset())
+        if name == "crank":
+            comps = objects_of("BaseComponent")
+
+            def cdepth(c, stack):
+                if id(c) in stack:
+                    return 10 ** 6
+                ps = [p for p in comps if any(x is c for x in getattr(p, "child_component_list", []))]
+                return max([cdepth(p, stack | {id(c)}) + 1 for p in ps] + [0])
+            return cdepth(obj, frozenset())
         return 0
     def ghost_rel(name, a, b):
         if name == "desc":
@@ -250,7 +259,22 @@ def main():
             out["precondition_failed"] = r
             print(json.dumps(out))
             return
-    if "." in qual:
+    if "@" in qual:
+        # a block of a real method (pyvc.source.BLOCKS): the same mechanical extraction, compiled in the globals of the real module
+        import os
+        sys.path.insert(0, os.path.dirname(os.path.dirname(os.path.abspath(__file__))))
+        from pyvc.source import Source
+        repo = sys.argv[2] if len(sys.argv) > 2 else "/repo"
+        src = Source(os.path.join(repo, "pDESy", "model"))
+        defcls, fnast = src.get_function(qual)
+        fnast.name = "_block"
+        modname = "pDESy.model." + src.module_of(qual)
+        code = compile(ast.fix_missing_locations(ast.Module(body=[fnast], type_ignores=[])), "<block %s>" % qual, "exec")
+        g = dict(vars(sys.modules[modname]))
+        exec(code, g)
+        fn = g["_block"]
+        args = {k: v for k, v in params.items() if not k.startswith("kw_")}
+    elif "." in qual:
         cls, name = qual.split(".", 1)
         selfobj = params.get("self")
         if name.startswith("__") and not name.endswith("__"):
